@@ -5,168 +5,8 @@ use dv_core::evidence::{Report, Tier};
 use dv_core::runner::rng_for;
 use rand::Rng;
 use serde_json::json;
-use std::collections::{HashMap, HashSet, VecDeque};
 
-/// unrestricted Damerau–Levenshtein over chars (Lowrance–Wagner), written independently
-pub fn dl(a: &str, b: &str) -> usize {
-    let a: Vec<char> = a.chars().collect();
-    let b: Vec<char> = b.chars().collect();
-    let (n, m) = (a.len(), b.len());
-    if n == 0 {
-        return m;
-    }
-    if m == 0 {
-        return n;
-    }
-    let inf = n + m;
-    let mut da: HashMap<char, usize> = HashMap::new();
-    // d has an extra leading row/column
-    let mut d = vec![vec![0usize; m + 2]; n + 2];
-    d[0][0] = inf;
-    for i in 0..=n {
-        d[i + 1][0] = inf;
-        d[i + 1][1] = i;
-    }
-    for j in 0..=m {
-        d[0][j + 1] = inf;
-        d[1][j + 1] = j;
-    }
-    for i in 1..=n {
-        let mut db = 0usize;
-        for j in 1..=m {
-            let i1 = *da.get(&b[j - 1]).unwrap_or(&0);
-            let j1 = db;
-            let cost = if a[i - 1] == b[j - 1] {
-                db = j;
-                0
-            } else {
-                1
-            };
-            let sub = d[i][j] + cost;
-            let ins = d[i + 1][j] + 1;
-            let del = d[i][j + 1] + 1;
-            let tr = d[i1][j1] + (i - i1 - 1) + 1 + (j - j1 - 1);
-            d[i + 1][j + 1] = sub.min(ins).min(del).min(tr);
-        }
-        da.insert(a[i - 1], i);
-    }
-    d[n + 1][m + 1]
-}
-
-/// breadth-first search over single edit operations (insert, delete, substitute, transpose
-/// adjacent) on a tiny alphabet: the definition itself, used to cross-check `dl`
-fn bfs_dist(a: &str, b: &str, alphabet: &[char], maxlen: usize) -> usize {
-    let start: Vec<char> = a.chars().collect();
-    let goal: Vec<char> = b.chars().collect();
-    let mut seen: HashSet<Vec<char>> = HashSet::new();
-    let mut q = VecDeque::new();
-    seen.insert(start.clone());
-    q.push_back((start, 0usize));
-    while let Some((s, d)) = q.pop_front() {
-        if s == goal {
-            return d;
-        }
-        let mut next: Vec<Vec<char>> = vec![];
-        for i in 0..s.len() {
-            let mut t = s.clone();
-            t.remove(i);
-            next.push(t);
-            for &c in alphabet {
-                if c != s[i] {
-                    let mut t = s.clone();
-                    t[i] = c;
-                    next.push(t);
-                }
-            }
-            if i + 1 < s.len() && s[i] != s[i + 1] {
-                let mut t = s.clone();
-                t.swap(i, i + 1);
-                next.push(t);
-            }
-        }
-        if s.len() < maxlen {
-            for i in 0..=s.len() {
-                for &c in alphabet {
-                    let mut t = s.clone();
-                    t.insert(i, c);
-                    next.push(t);
-                }
-            }
-        }
-        for t in next {
-            if seen.insert(t.clone()) {
-                q.push_back((t, d + 1));
-            }
-        }
-    }
-    usize::MAX
-}
-
-pub fn budget(received: &str) -> Option<usize> {
-    match received.len() {
-        0..=3 => None,
-        4..=7 => Some(1),
-        8..=12 => Some(2),
-        13..=17 => Some(3),
-        18..=24 => Some(4),
-        _ => Some(5),
-    }
-}
-
-/// reference: index of the accepted string to suggest, if any
-pub fn reference(received: &str, accepted: &[String]) -> Option<usize> {
-    let b = budget(received)?;
-    let mut best: Option<(usize, usize)> = None;
-    for (i, a) in accepted.iter().enumerate() {
-        let d = dl(received, a);
-        if d <= b && best.map(|(_, bd)| d < bd).unwrap_or(true) {
-            best = Some((i, d));
-        }
-    }
-    best.map(|x| x.0)
-}
-
-fn check(received: &str, accepted: &[String]) -> Result<(), (String, String)> {
-    let acc: Vec<&str> = accepted.iter().map(|s| s.as_str()).collect();
-    let r = received.to_string();
-    let got = std::panic::catch_unwind(|| did_you_mean(&r, &acc))
-        .map_err(|p| ("panic".to_string(), format!("panicked: {}", dv_core::entry::panic_msg(p))))?;
-    match reference(received, accepted) {
-        None => {
-            if !got.is_empty() {
-                let why = if budget(received).is_none() { "received-too-short" } else { "beyond-budget" };
-                return Err((
-                    format!("suggestion-when-none-allowed|{why}"),
-                    format!("did_you_mean({received:?}, {accepted:?}) = {got:?}, expected no suggestion"),
-                ));
-            }
-        }
-        Some(i) => {
-            let want = &accepted[i];
-            if got.is_empty() {
-                return Err((
-                    "missing-suggestion".into(),
-                    format!("did_you_mean({received:?}, {accepted:?}) is empty, expected a suggestion of {want:?} (distance {})", dl(received, want)),
-                ));
-            }
-            if !got.contains(&format!("`{want}`")) {
-                return Err((
-                    "wrong-suggestion".into(),
-                    format!("did_you_mean({received:?}, {accepted:?}) = {got:?}, expected it to name {want:?} (earliest at minimal distance {})", dl(received, want)),
-                ));
-            }
-            for a in accepted {
-                if a != want && !want.contains(a.as_str()) && got.contains(&format!("`{a}`")) {
-                    return Err((
-                        "names-several".into(),
-                        format!("did_you_mean({received:?}, {accepted:?}) = {got:?} also names {a:?}"),
-                    ));
-                }
-            }
-        }
-    }
-    Ok(())
-}
+pub use dv_core::dym::{bfs_dist, budget, check, dl, reference};
 
 fn strings_upto(alphabet: &[char], maxlen: usize) -> Vec<String> {
     let mut out = vec![String::new()];
